@@ -173,6 +173,10 @@ func (p cfgPath) GetValue(cfg *Config, opt *options) (value, Error) {
 		}
 
 		if next == nil {
+			// missing in the configuration reached so far, not in cfg
+			if holder, herr := cur.toConfig(opt); herr == nil {
+				return nil, raiseMissing(holder, field.String())
+			}
 			return nil, raiseMissing(cfg, field.String())
 		}
 
@@ -187,7 +191,16 @@ func (p cfgPath) GetValue(cfg *Config, opt *options) (value, Error) {
 			// setting a default value could stand in for
 			return nil, err
 		}
-		return nil, raiseMissing(cfg, field.String())
+		if err.Reason() == ErrMissing {
+			return nil, err // names the full path of the missing element already
+		}
+		// cur is no object: field is missing below it
+		ctx := cur.Context()
+		path := field.String()
+		if parent := ctx.path("."); parent != "" {
+			path = parent + "." + path
+		}
+		return nil, raisePathErr(ErrMissing, cur.meta(), "", path)
 	}
 	return v, nil
 }
@@ -247,6 +260,9 @@ func (p cfgPath) SetValue(cfg *Config, opt *options, val value) Error {
 
 		next := New()
 		next.metadata = val.meta()
+		if opt.meta != nil {
+			next.metadata = opt.meta
+		}
 		v := cfgSub{next}
 		if err := field.SetValue(opt, v, val); err != nil {
 			return err
@@ -326,7 +342,7 @@ func (p cfgPath) Remove(cfg *Config, opt *options) (bool, error) {
 	// resolve config object in case we deal with references
 	tmp, err := cur.toConfig(opt)
 	if err != nil {
-		if _, ok := err.(Error); !ok {
+		if e, ok := err.(Error); !ok || e.Path() == "" {
 			ctx := cur.Context()
 			err = raisePathErr(err, cur.meta(), "", ctx.path("."))
 		}
